@@ -9,8 +9,8 @@ to M lists while one loop runs over the subsets and an inner loop over the eleme
 true variables in each list is (after t subsets: cntstar(.., t); inside subset t: plus the variable of subset t if the element was
 already met), never what the lists look like.
 ASSUMED: the combinations group as the family sees it (indices() lists the subsets in itertools order, X() - for k >= 1 - their identifiers in
-the same order: the tables behind both are proved for the real class in variables_words.py (vid2seq, seq2vid); that indices()/X() without
-argument just walk those tables is read off the code, not proved), the interface meaning of cardinality_eq (C04).
+the same order: the tables behind both are proved for the real class in variables_words.py (vid2seq, seq2vid); indices() without argument is
+proved there too; that X() without argument maps those tuples to their identifiers one by one is read off the code, not proved), the interface meaning of cardinality_eq (C04).
 """
 K = 'cnfgen/families/counting.py'
 F_ = 'cnfgen/formula/cnf.py'
